@@ -565,6 +565,22 @@ func c13Sequences() []string {
 }
 
 func c13Tests() []string {
+	// want and got of every pair of shapes: the same values, and only those, pass — also for maps one of which
+	// holds the pairs of the other and more, at top level and inside arrays and maps
+	vals := []string{"e", "{a:1}", "{a:1 b:2}", "{b:2 a:1}", "{a:1 b:3}", "{a:1 c:2}", "[{a:1}]", "[{a:1 b:2}]", "{k:{a:1}}", "{k:{a:1 b:2}}", "[e]", "[]", "[1]", "[1 2]", "1", "\"a\""}
+	var pairs []string
+	for _, w := range vals {
+		src := "e:{}num\n"
+		for _, g := range vals {
+			src += "test " + w + " " + g + "\n"
+		}
+		pairs = append(pairs, src+"print \"after\"\n")
+	}
+	pairs = append(pairs, "got := {a:1 b:2}\ntest {a:1} got\ngot2 := {a:1}\ngot2.z = 0\ntest {a:1} got2 \"grown %v\" got2\nx:any\nx = got\ntest {a:1} x\ntest x {a:1}\nprint \"after\"\n")
+	return append(pairs, c13TestsFixed()...)
+}
+
+func c13TestsFixed() []string {
 	return []string{
 		"test true\nprint \"after\"\n",
 		"test false\nprint \"after\"\n",
@@ -784,6 +800,8 @@ func RunC15(d *Driver) *Report {
 			}
 		}
 		b := "    print \"" + name + "\" " + strings.Join(used, " ") + " g total lastn lasts hist names\n"
+		// the conversion error state is global state like any other: a handler sees what earlier code left in it
+		b += "    print \"err\" err errmsg\n"
 		// globals that carry the names the built-in event signatures use for their parameters (x y n s id val k t):
 		// a handler that does not declare such a parameter reads and updates the GLOBAL of that name
 		isParam := map[string]bool{}
@@ -825,12 +843,13 @@ func RunC15(d *Driver) *Report {
 			}
 		}
 		b += "    print \"sh before\" sh\n    sh := \"shadow\"\n    print sh l\n"
+		b += "    cv := str2num lasts\n    print \"cv\" cv err\n"
 		return b
 	}
 	for variant := 0; variant < 6; variant++ {
 		// choose one signature per handler (rotate through the alternatives)
 		var hs []hdl
-		src := "g := 0\ntotal := 0\nsh := 101\nlastn := 0\nlasts := \"\"\nhist := [0 0]\nnames := {n:0}\nx := 100\ny := 200\nn := 300\nt := 400\ns := \"S\"\nid := \"ID\"\nval := \"VAL\"\nk := \"K\"\nprint \"main\" g x y n t s id val k\n"
+		src := "g := 0\ntotal := 0\nsh := 101\nlastn := 0\nlasts := \"\"\nhist := [0 0]\nnames := {n:0}\nx := 100\ny := 200\nn := 300\nt := 400\ns := \"S\"\nid := \"ID\"\nval := \"VAL\"\nk := \"K\"\nprint \"main\" g x y n t s id val k\nbad := str2num \"zz\"\nprint bad err errmsg\n"
 		fsrc := src
 		for hi, name := range names {
 			if (variant+hi)%4 == 3 {
